@@ -150,7 +150,34 @@ class LiteralEvaluator:
 			結合結果
 		"""
 		quote = left[0]
-		return f'{quote}{left[1:-1]}{right[1:-1]}{quote}'
+		return f'{quote}{left[1:-1]}{self._requote(right[1:-1], right[0], quote)}{quote}'
+
+	def _requote(self, body: str, org_quote: str, quote: str) -> str:
+		"""文字列の本体を、異なる引用符で囲い直せる様にエスケープし直す
+
+		Args:
+			body: 文字列の本体(引用符を除く)
+			org_quote: 元の引用符
+			quote: 変更後の引用符
+		Returns:
+			文字列の本体
+		"""
+		if org_quote == quote:
+			return body
+
+		new_body = ''
+		index = 0
+		while index < len(body):
+			if body[index] == '\\' and index + 1 < len(body):
+				# 元の引用符のエスケープは不要になる。それ以外のエスケープシーケンスはそのまま維持
+				escaped = body[index + 1]
+				new_body += escaped if escaped == org_quote else f'\\{escaped}'
+				index += 2
+			else:
+				new_body += f'\\{quote}' if body[index] == quote else body[index]
+				index += 1
+
+		return new_body
 
 	def on_argument(self, node: defs.Argument, label: Evaluator.Value, value: Evaluator.Value) -> Evaluator.Value:
 		return value
